@@ -1,6 +1,7 @@
 package main
 
 import (
+	"encoding/json"
 	"flag"
 	"fmt"
 	"os"
@@ -249,6 +250,9 @@ func main() {
 		doDump(p, *dump, *rulesFlag)
 		return
 	}
+	if *prop == "scan" {
+		os.Exit(scanAll(*repo))
+	}
 	pd := props[*prop]
 	if pd == nil {
 		fmt.Fprintf(os.Stderr, "unknown or unclaimed property %q\n", *prop)
@@ -264,6 +268,13 @@ func main() {
 
 func doDump(p *Prog, what, rules string) {
 	switch what {
+	case "symbols":
+		b, _ := json.MarshalIndent(p.inventory(), "", " ")
+		fmt.Println(string(b))
+	case "renames":
+		for _, n := range p.RenameNotes {
+			fmt.Println(n)
+		}
 	case "closures":
 		cl, odd := p.PktClosures()
 		for _, c := range cl {
@@ -317,4 +328,66 @@ func goodFor(key, r string) bool {
 		}
 	}
 	return false
+}
+
+// scanAll (debug/regression aid, not a registered check): loads the tree once, runs every engine and reports per
+// claimed property which obligations are violated or undecided. Writes no evidence.
+func scanAll(repo string) int {
+	known, _ := loadKnown(verifDir + "/known_findings.json")
+	knownKey := map[string]bool{}
+	for _, k := range known {
+		if k.Status == "known" {
+			knownKey[k.Key] = true
+		}
+	}
+	p, err := Load(repo, nil, "", nil)
+	if err != nil {
+		fmt.Println("SCAN load error:", err)
+		return 2
+	}
+	var rl []string
+	for _, e := range engines {
+		rl = append(rl, e.rules...)
+	}
+	all, panics := runEngines(p, rl)
+	for _, pn := range panics {
+		fmt.Println("PANIC:", pn)
+	}
+	var ids []string
+	for id := range props {
+		ids = append(ids, id)
+	}
+	sort.Strings(ids)
+	var fired []string
+	for _, id := range ids {
+		pd := props[id]
+		obls := selectObls(all, pd.sels)
+		n := 0
+		for _, ob := range obls {
+			if (ob.Verdict == Violated && !knownKey[ob.Key]) || ob.Verdict == Undecided {
+				fmt.Printf("%s %s %s at %s: %s\n", id, ob.Verdict, ob.Key, ob.Pos, ob.Witness)
+				n++
+			}
+		}
+		for _, sl := range pd.sels {
+			c := 0
+			for _, ob := range obls {
+				if sl.selects(ob) {
+					c++
+				}
+			}
+			if c == 0 && !sl.opt {
+				fmt.Printf("%s anchor-unresolved rule %s\n", id, sl.rule)
+				n++
+			}
+		}
+		if n > 0 || len(panics) > 0 {
+			fired = append(fired, id)
+		}
+	}
+	fmt.Printf("SCAN fired=%s renames=%d\n", strings.Join(fired, ","), len(p.RenameNotes))
+	if len(fired) > 0 {
+		return 1
+	}
+	return 0
 }
